@@ -97,3 +97,13 @@ Theorem C01_callback_write_order_needed :
               pc s = PExit /\ Poll.queue s = 1 /\ bad s = false.
 Proof. exact poll_unregister_first_refuted. Qed.
 Print Assumptions C01_callback_write_order_needed.
+
+(* ... and no wake-up is lost: from every state any interleaving can reach, the callbacks that are out
+   can finish and the parent then pops what is queued and leaves -- the protocol itself never makes the
+   parent wait forever (deliveries that hand out new work are C01_terminates' business). *)
+Theorem C01_wait_loop_can_always_finish : forall enq starts ops,
+  nodupb Nat.eqb (map fst starts) = true ->
+  let s := prun false false (pinit false enq starts) ops in
+  exists more, let s' := prun false false s more in pc s' = PExit /\ bad s' = bad s.
+Proof. exact poll_can_always_finish. Qed.
+Print Assumptions C01_wait_loop_can_always_finish.
